@@ -372,9 +372,12 @@ func deepInput(r *runner.Rng, idx uint64) string {
 
 func init() {
 	runner.Register(&runner.Check{
-		ID:               "C04",
-		Level:            "exploration",
-		HangIsViolation:  true,
+		ID:              "C04",
+		Level:           "exploration",
+		HangIsViolation: true,
+		// panic(nil) in an environment function: with the Go semantics the
+		// library's own go directive (1.13) selects, recover() returns nil
+		WorkerEnv:        func(string) []string { return []string{"GODEBUG=panicnil=1"} },
 		DeathIsViolation: true,
 		Rule: "case = one input string x one drawn option subset x hostile run environments, fed to parser.Parse, expr.Compile, expr.Eval, expr.Run (and Program.Disassemble) under recover() inside a watched child process; inputs: every string of <= 2 tokens over an 113-token alphabet (3 tokens: exhaustive in thorough, sampled in quick), seeded token soup of 1-40 tokens, generated grammatical programs and their byte/token mutations (bit flips, insertions, deletions, duplications, truncation, NUL, invalid UTF-8, encoded surrogates, very long identifiers and numbers), deep nestings up to 64 KiB; options: Env in 9 forms, AllowUndefinedVariables, Optimize, As*, Operator (valid/missing/ill-shaped), ConstExpr (valid/missing/non-function/panicking), Patch with node-replacing visitors of 16 kinds; run environments: matching, nil, wrongly typed, nil members, panicking members; " +
 			"distinct = distinct (input, option subset) pairs that compile",
